@@ -16,6 +16,7 @@ Definition node_eqb (a b : node) : bool :=
 
 Record case := mkcase {
   c_dim : nat; c_mls : nat; c_pts : list (list Z);
+  c_now : list (list Z);                        (* the caller's container while the queries run *)
   c_piv : list Z;                               (* what _find_pivot returned, in call order *)
   c_nodes : list node;                          (* tree.nodes as observed *)
   c_knn : list (list Z * nat * list nat);       (* (query point, k, observed answer) *)
@@ -49,7 +50,7 @@ Definition check_case (c : case) : bool :=
   | Ok nodes =>
     list_eqb node_eqb nodes (c_nodes c)
     && Nat.eqb (length (filter is_node nodes)) (length (c_piv c))
-    && forallb (check_knn (c_pts c) nodes) (c_knn c)
-    && forallb (check_rad (c_pts c) nodes) (c_rad c)
+    && forallb (check_knn (self_points (c_pts c) (c_now c)) nodes) (c_knn c)
+    && forallb (check_rad (self_points (c_pts c) (c_now c)) nodes) (c_rad c)
   | _ => false
   end.
